@@ -1,6 +1,6 @@
 (* C06 — the property, clause by clause.  Only statements here; every proof is `exact lemma`. *)
 From Coq Require Import List String ZArith Bool Arith.
-From V.C06 Require Import Model Spec Proofs.
+From V.C06 Require Import Model Spec Proofs ProofsRoutes.
 Import ListNotations.
 
 (* FRAME (any depth, any route): a write — element store by int or string key, append, unset,
@@ -40,6 +40,19 @@ Print Assumptions copy_then_mutate.
 Theorem statement_is_write : forall h X path act m,
   mut_of path act = Some m -> mutate_at h (VArr X) path act = apply_mut h X m.
 Proof. exact mutate_at_is_apply_mut. Qed.
+
+(* through the statement interpreter: `$xb = $xa;` (assignment — also the model image of by-value
+   parameter binding and of a returned value) and then any depth-1 write statement
+   ($x[k] = v, $x[] = v, unset($x[k]), sort($x), array_push($x, v), array_pop($x)) through either
+   variable: both denote equal trees after the copy and the write never shows through the other *)
+Theorem assign_then_write : forall n st xa xb ca cb a path act m,
+  two_vars st xa xb ca cb a -> mut_of path act = Some m ->
+  let st1 := exec st (SCopy xb xa) in
+  obs_var n st1 xb = obs_var n st1 xa /\
+  obs_var n (exec st1 (SMut (BVar xb) path act)) xa = obs_var n st1 xa /\
+  obs_var n (exec st1 (SMut (BVar xa) path act)) xb = obs_var n st1 xb.
+Proof. exact assign_then_write_l. Qed.
+Print Assumptions assign_then_write.
 
 (* a list literal of scalars is a depth-1 array in the sense of the hypotheses above *)
 Theorem literal_is_flat : forall h vs, (forall v, In v vs -> scalar v = true) ->
